@@ -143,14 +143,15 @@ impl Pipe {
         }))
     }
 
-    /// A task that keeps calling the transport after EOF / an error without ever yielding is
+    /// A task that keeps reading after end-of-file (which persists) without ever yielding is
     /// spinning; unwinding out of the poll turns the would-be hang into a reportable event.
     fn note_call(&mut self, write: bool) {
-        // reads after a read-side terminal result, writes after a write-side one
-        let armed = if write { self.write_fault_fired_at.is_some() } else { self.terminal_returned };
+        // only the read side can spin (EOF / a read error is reported again and again); an injected
+        // write fault is one-shot, and a handler that swallowed it may legitimately keep writing
+        let armed = !write && self.terminal_returned;
         if armed {
             self.calls_after_terminal += 1;
-            assert!(self.calls_after_terminal < 2000, "spin: more than 2000 transport calls after end-of-file / an I/O error was reported");
+            assert!(self.calls_after_terminal < 2000, "spin: more than 2000 transport reads after end-of-file was reported");
         }
     }
 
@@ -213,13 +214,13 @@ pub struct Writer(pub Shared);
 
 impl AsyncRead for Reader {
     fn poll_read(self: Pin<&mut Self>, cx: &mut Context<'_>, buf: &mut [u8]) -> Poll<io::Result<usize>> {
-        let mut p = self.0.lock().unwrap();
+        let mut p = self.0.lock().unwrap_or_else(std::sync::PoisonError::into_inner);
         p.read_calls += 1;
         p.note_call(false);
         if let Some((k, kind)) = p.read_fault {
             if p.read_calls >= k {
                 p.read_fault = None;
-                p.terminal_returned = true;
+                // (one-shot: later reads succeed again, so continuing to read is legitimate)
                 p.ev(Ev::ReadErr);
                 return Poll::Ready(Err(kind.into()));
             }
@@ -264,7 +265,7 @@ impl AsyncRead for Reader {
 impl Writer {
     fn write_common(&self, cx: &mut Context<'_>, total: usize) -> Result<Poll<io::Result<usize>>, usize> {
         // Ok(poll) = decided without accepting bytes; Err(n) = accept n bytes
-        let mut p = self.0.lock().unwrap();
+        let mut p = self.0.lock().unwrap_or_else(std::sync::PoisonError::into_inner);
         p.write_calls += 1;
         p.note_call(true);
         if let Some((k, f)) = p.write_fault {
@@ -306,7 +307,7 @@ impl AsyncWrite for Writer {
         match self.write_common(cx, buf.len()) {
             Ok(p) => p,
             Err(n) => {
-                let mut p = self.0.lock().unwrap();
+                let mut p = self.0.lock().unwrap_or_else(std::sync::PoisonError::into_inner);
                 p.outbox.extend_from_slice(&buf[..n]);
                 if p.write_fault_fired_at.is_some() {
                     p.bytes_after_write_fault += n;
@@ -322,7 +323,7 @@ impl AsyncWrite for Writer {
         match self.write_common(cx, total) {
             Ok(p) => p,
             Err(n) => {
-                let mut p = self.0.lock().unwrap();
+                let mut p = self.0.lock().unwrap_or_else(std::sync::PoisonError::into_inner);
                 let mut left = n;
                 for b in bufs {
                     let k = left.min(b.len());
@@ -357,7 +358,7 @@ impl AsyncWrite for Writer {
     }
 
     fn poll_flush(self: Pin<&mut Self>, cx: &mut Context<'_>) -> Poll<io::Result<()>> {
-        let mut p = self.0.lock().unwrap();
+        let mut p = self.0.lock().unwrap_or_else(std::sync::PoisonError::into_inner);
         let pct = p.beh.flush_pending_pct;
         if pct > 0 && p.rng.below(100) < pct {
             p.write_waker = Some(cx.waker().clone());
